@@ -208,6 +208,34 @@ def run(ctx):
             ok = r.get("ok") or {}
             if ok.get("k") != "time.Duration" or ok.get("v") != "1.5s":
                 violations.append({"sig": "getter-conversion", "what": "%s on a service whose object (int64) must be converted to the declared type time.Duration returns %r" % (o[1], r), "files": cout[0]["files"]})
+    # types of the package the container is generated into (no package part, or `"."`), by pointer and by value: the getter's T is
+    # the declared one — `*T` stays a pointer
+    lcfg = {"meta": {"pkg": "gen", "imports": {"fx": gen.FX}}, "services": {
+        "lp": {"constructor": "NewA", "arguments": ["lp"], "type": "*Obj", "getter": "GetLp", "must_getter": True},
+        "lq": {"constructor": '".".NewA', "arguments": ["lq"], "type": '*".".Obj', "getter": "GetLq"},
+        "lv": {"constructor": "NewVal", "arguments": ["lv"], "type": "Obj", "getter": "GetLv", "must_getter": True},
+        "lx": {"value": "&Obj{}", "type": "*Obj", "getter": "GetLx"},
+        "ly": {"value": "Obj{}", "type": '".".Obj', "getter": "GetLy"}}}
+    lwant = {"GetLp": "*fx.Obj", "GetLq": "*fx.Obj", "GetLv": "fx.Obj", "GetLx": "*fx.Obj", "GetLy": "fx.Obj"}
+    lops = [["methods"], ["newctx", "c1"]] + [["call", g] for g in lwant] + [["call", g + "InContext", "c1"] for g in lwant] + [["call", "MustGetLp"], ["call", "MustGetLv"]]
+    lout, lerr = behave.run_batch(ctx, [(lcfg, lops)], tag="c13l", local=True, split=False)
+    if lerr or not lout or not lout[0]["accepted"] or lout[0]["impl"] is None:
+        violations.append({"sig": "local-types", "what": "configuration with getter types of the generated package itself does not build/run: %s" % (lerr or (lout and (lout[0]["cli_out"][-300:] or lout[0].get("impl_crash"))),), "files": lout[0]["files"] if lout else []})
+    else:
+        dist["local_type_methods"] = 0
+        got = {m["name"]: (m.get("in") or [], m.get("out") or []) for m in (lout[0]["impl"][0].get("ok") or [])}
+        for g, t in lwant.items():
+            for nm, sig in ((g, ([], [t, "error"])), (g + "InContext", (["context.Context"], [t, "error"]))) + (((("Must" + g), ([], [t])), ("Must" + g + "InContext", (["context.Context"], [t]))) if g in ("GetLp", "GetLv") else ()):
+                dist["local_type_methods"] += 1
+                if nm not in got or (list(got[nm][0]), list(got[nm][1])) != (sig[0], sig[1]):
+                    violations.append({"sig": "method-signature", "what": "%s (type of the generated package itself, declared %r) has signature %r, expected %r" % (nm, lcfg["services"]["l" + g[-1].lower()]["type"], got.get(nm), sig), "files": lout[0]["files"]})
+        for o, r in zip(lops[2:], lout[0]["impl"][2:]):
+            if "ok" not in r:
+                violations.append({"sig": "getter-fails", "what": "%r on a service typed with the generated package's own type: %r" % (o, r), "files": lout[0]["files"]})
+        if lout[0].get("model") is not None:
+            for x in behave.compare_script(lout[0]["impl"][1:], lout[0]["model"][1:])[:2]:
+                if len(corr_fail) < 10:
+                    corr_fail.append({"op": "rt:call", "script_op": lops[x[0] + 1] if isinstance(x[0], int) else x[0], "impl": x[1], "model": x[2], "files": lout[0]["files"]})
     # collisions must be rejected, naming the service
     coll = [("Container", None)] + [(m, None) for m in CONTAINER_API] + [("MustX", None), ("XInContext", None), ("Same", "Same")]
     for g1, g2 in coll:
